@@ -143,6 +143,18 @@ func genC14(cw *caseWriter, seed uint64, tier string) {
 				}
 			}
 		}
+		// a date-time member that comes twice in one line: the second occurrence — whose explicit offset is the
+		// process zone's own at that instant, or not — is what the column holds afterwards, offset included
+		for _, first := range []string{"2020-01-01T00:00:00+05:00", "2020-06-01T00:00:00-09:30", "2020-01-01T00:00:00Z"} {
+			for _, at := range []time.Time{time.Date(2021, 7, 1, 12, 0, 0, 0, z.loc), time.Date(2021, 1, 15, 8, 30, 0, 0, z.loc), time.Date(2021, 10, 31, 2, 30, 0, 0, z.loc)} {
+				for _, second := range []string{at.Format(time.RFC3339), at.In(time.FixedZone("", 19800)).Format(time.RFC3339), at.UTC().Format(time.RFC3339)} {
+					l := []byte(`{"c":"` + first + `","x":1,"c":"` + second + `"}`)
+					for _, co := range outs[:4] {
+						emitLine(cw, "C14", []colDesc{ins[0]}, []colDesc{co}, l, true)
+					}
+				}
+			}
+		}
 		// the column texts one after the other through ONE importer and ONE exporter per column pair
 		for _, ci := range ins {
 			for _, co := range outs {
